@@ -537,10 +537,16 @@ def rule_r6(ctx) -> List[R.Inst]:
     file, line = fn_loc(M, q)
     item_p = params_of(fn.node)[1]
     rets = returns_of(fn.node)
+    if len(rets) == 1 and not any(isinstance(n, (ast.ListComp, ast.GeneratorExp)) for n in ast.walk(rets[0].value)):
+        # the rows collected by an append loop and named before the frame is built: read as the comprehension it is
+        fn = M.nfn(q, comps=True, subst=True)
+        rets = returns_of(fn.node)
     good = False
+    unread = False
     why = "the stacked frame does not have one row per chart, in chart order"
     if len(rets) == 1:
         lcs = [n for n in ast.walk(rets[0].value) if isinstance(n, (ast.ListComp, ast.GeneratorExp))]
+        unread = not lcs
         if len(lcs) == 1 and len(lcs[0].generators) == 1:
             g = lcs[0].generators[0]
             if g.ifs:
@@ -556,6 +562,7 @@ def rule_r6(ctx) -> List[R.Inst]:
                 else:
                     why = f"the per-chart rows are combined by '{unparse(v)[:60]}', not as one DataFrame row per chart"
     insts.append(R.ok("C12.R6", "MapSet.Stacker.__getitem__", file, line, idiom="one row per stacker: [s[item] for s in self.stackers]") if good else
+                 R.undec("C12.R6", "MapSet.Stacker.__getitem__", file, line, "how the per-chart rows are collected was not recognised") if unread else
                  R.viol("C12.R6", "MapSet.Stacker.__getitem__", file, line, why,
                         construct=unparse(rets[0].value)[:160] if rets else "no return"))
     q = MAPSET_STACKER + ".__setitem__"
